@@ -611,3 +611,20 @@ func NextID() int64 {
 }
 
 var idOff int64
+
+// WaitIdle parks the calling thread until no other thread is enabled (everything else is blocked, idle or done).
+func WaitIdle(what string) {
+	s := S
+	if s == nil || s.cur == nil {
+		return
+	}
+	t := s.cur
+	Wait(true, what, func() bool {
+		for _, o := range s.threads {
+			if o != t && !o.done && enabled(o) {
+				return false
+			}
+		}
+		return true
+	})
+}
